@@ -14,6 +14,7 @@ def make_scenarios(ctx, count, nops):
         style = rng.choice(["fill", "churn", "expiry"])
         ops = []
         now = rng.choice([1, 999, 1000, 5000, 123456])
+        subsec = rng.random() < 0.3          # some sequences move the clock by arbitrary milliseconds
         s = H.Scenario("t%d" % i)
         s.iface(0, mtu=1500, mac=G.rand_mac(rng))
         s.add("OPT sleep=0 in=1 asnap=1")
@@ -41,8 +42,9 @@ def make_scenarios(ctx, count, nops):
             elif r < p_add + 0.42:
                 secs = rng.choice([0, 1, 1, 2, 29, 30, 31, 59, 60, 61, 61, 62, 119, 120, 121, 200]) \
                     if style == "expiry" or rng.random() < 0.5 else rng.randint(0, 5)
-                s.add("ADV %d" % (secs * 1000))
-                ops.append(("ADV", secs))
+                ms = secs * 1000 + (rng.choice([0, 1, 499, 500, 999]) if subsec else 0)
+                s.add("ADV %d" % ms)
+                ops.append(("ADV", ms))
             elif r < p_add + 0.52:
                 s.add("K 0")
                 ops.append(("K",))
@@ -58,7 +60,7 @@ def make_scenarios(ctx, count, nops):
             else:
                 s.add("TU 0")
                 ops.append(("TU",))
-        s.meta = dict(ops=ops, now=now)
+        s.meta = dict(ops=ops, now=now, subsec=subsec)
         scns.append(s)
     return scns
 
@@ -97,7 +99,7 @@ def monitor(scn, sobj, rep, sf, ck):
 
     for i, op in enumerate(ops):
         if op[0] == "ADV":
-            now_ms += op[1] * 1000
+            now_ms += op[1]
             continue
         inp = next(it, None)
         if inp is None or inp.out is None:
@@ -117,7 +119,7 @@ def monitor(scn, sobj, rep, sf, ck):
                 m = model[k]
                 if r != m["slot"]:
                     bad("add-known-key-not-same-slot", "returned slot %s, session lives in slot %d" % (r, m["slot"]), i)
-                m["seq"], m["last"] = seq, now_s
+                m["seq"], m["last"], m["last_ms"] = seq, now_s, now_ms
             elif len(model) < 16:
                 seen.add("insert")
                 if r is None or r < 0:
@@ -125,7 +127,7 @@ def monitor(scn, sobj, rep, sf, ck):
                 else:
                     if any(m["slot"] == r for m in model.values()):
                         bad("add-overwrites-live-slot", "new session placed in live slot %d" % r, i)
-                    model[k] = dict(seq=seq, complete=0, last=now_s, slot=r)
+                    model[k] = dict(seq=seq, complete=0, last=now_s, last_ms=now_ms, slot=r)
             else:
                 seen.add("full-reject")
                 if r != -1:
@@ -152,7 +154,14 @@ def monitor(scn, sobj, rep, sf, ck):
                 seen.add("clear")
             model.clear()
         elif kind == "K":
-            dead = [k for k, m in model.items() if now_s > m["last"] + 60]
+            live_keys = set((e[0], e[1]) for e in ents.values())
+            dead = []
+            for k, m in model.items():
+                idle_ms = now_ms - m["last_ms"]
+                if idle_ms >= 61000 or (not sobj.meta.get("subsec") and now_s > m["last"] + 60):
+                    dead.append(k)                       # idle for more than 60 s (whole seconds: exact)
+                elif idle_ms > 60000 and sobj.meta.get("subsec") and k not in live_keys:
+                    dead.append(k)                       # 60 s < idle < 61 s on a millisecond clock: either outcome is in order
             if dead:
                 seen.add("expiry-with-survivors" if len(dead) < len(model) else "expiry-all")
             for k in dead:
@@ -180,7 +189,7 @@ def monitor(scn, sobj, rep, sf, ck):
                 "model has %d sessions, table %d; missing %s unexpected %s; now=%ds" %
                 (len(model), len(ents), sorted((k[0].hex(), k[1]) for k in miss), sorted((k[0].hex(), k[1]) for k in extra), now_s), i)
             # resynchronise so one defect is not reported at every later step
-            model = {(e[0], e[1]): dict(seq=e[2], complete=e[4], last=e[5], slot=s) for s, e in ents.items()}
+            model = {(e[0], e[1]): dict(seq=e[2], complete=e[4], last=e[5], last_ms=e[5] * 1000, slot=s) for s, e in ents.items()}
         else:
             for s, e in ents.items():
                 m = model[(e[0], e[1])]
@@ -228,7 +237,8 @@ def run(ctx):
     rep.rule = ("random sequences of 200 table operations over 20-24 (mapper, generation) keys with clock advances of "
                 "whole seconds, compared step by step with a dictionary model on return values and public fields; a "
                 "sequence is non-trivial when it reached the full-table rejection and a refresh, or an expiry with survivors")
-    rep.assumptions = ["clock advances are whole seconds (the table stores seconds)",
+    rep.assumptions = ["70 % of the sequences advance the clock in whole seconds (exact expiry oracle); the rest in arbitrary milliseconds, where an entry idle "
+                       "between 60 and 61 s may either survive or go (the table stores whole seconds)",
                        "completion changes go through the same find + flag + update_complete_status calls the daemon makes"]
     binary = H.build(ctx.work, "asan")
     scns = make_scenarios(ctx, ctx.n(2000, 60000), 200)
